@@ -65,11 +65,29 @@ def gen_json(ctx, mode="lang", quick=None, incomplete=False):
     return rows
 
 
+def conformance_cases(ctx, prop, fmt, rows):
+    """Every document through the one-shot Parse and through one more entry point (rotating): the value a parser
+    reports must be the reference value whichever way the bytes arrive."""
+    rnd = ctx.rng
+    cases = []
+    other = ["write", "reader", "decbytes", "decreader"]
+    for n, r in enumerate(rows):
+        org = "Gen %s %s" % (r["class"], r["why"])
+        cases.append(case(prop, "parse", fmt, doc=r["doc"], origin=org))
+        if len(r["doc"]) >= 2:
+            e = other[n % 4]
+            kw = sched_variants(ctx, r["doc"], e, rnd)
+            if e in ("reader", "decreader"):
+                kw["eofwith"] = (n // 4) % 2 == 0
+            cases.append(case(prop, "parse", fmt, doc=r["doc"], entry=e, origin=org + " via " + e, **kw))
+    return cases
+
+
 # ---------------------------------------------------------------- C05
 
 def c05(ctx):
     rows = gen_cbor(ctx, "lang")
-    cases = [case("C05", "parse", "cborl", doc=r["doc"], origin="GenCbor %s %s" % (r["class"], r["why"])) for r in rows]
+    cases = conformance_cases(ctx, "C05", "cborl", rows)
     number(cases)
     tf, st = core.run_harness(ctx, cases)
     failed, n = core.tlc_validate(ctx, "TraceCodec", tf)
@@ -86,7 +104,7 @@ def c05(ctx):
 
 def c06(ctx):
     rows = gen_ubjson(ctx, "lang")
-    cases = [case("C06", "parse", "ubjson", doc=r["doc"], origin="GenUbjson %s %s" % (r["class"], r["why"])) for r in rows]
+    cases = conformance_cases(ctx, "C06", "ubjson", rows)
     number(cases)
     tf, st = core.run_harness(ctx, cases)
     failed, n = core.tlc_validate(ctx, "TraceCodec", tf)
@@ -104,7 +122,7 @@ def c06(ctx):
 
 def c04(ctx):
     rows = gen_json(ctx, "lang")
-    cases = [case("C04", "parse", "json", doc=r["doc"], origin="GenJson %s %s" % (r["class"], r["why"])) for r in rows]
+    cases = conformance_cases(ctx, "C04", "json", rows)
     number(cases)
     tf, st = core.run_harness(ctx, cases)
     failed, n = core.tlc_validate(ctx, "TraceCodec", tf)
@@ -138,9 +156,13 @@ def stream_cases(ctx, prop, kind, shapes, fmts=("json", "ubjson", "cborl")):
     n = 0
     for shape in shapes:
         for st in streams.fills(shape, nf, rnd):
+            nonfin = any(streams.is_nonfinite(e) for e in st)
             for fmt in fmts:
                 if fmt == "json":
                     opts = [ALL_OPTS[n % 8]] if ctx.quick else ALL_OPTS
+                    if nonfin and ctx.quick:      # refusal and nulling are both part of the property
+                        o = ALL_OPTS[n % 8]
+                        opts = [dict(o, ignf=False), dict(o, ignf=True)]
                 else:
                     opts = [dict(OPTS0)]
                 for o in opts:
@@ -619,15 +641,32 @@ def c17(ctx):
     # ---- iterator and unfolder: histories of TLC-enumerated Go programs (shared types: first use vs cached use of a type)
     rows = [r for r in gen_gotypes(ctx, quick=True) if r["T"]["k"] in ("struct", "slice", "map", "ptr", "iface")]
     rnd.shuffle(rows)
-    G = 40 if ctx.quick else 120
-    progs = [dict(T=r["T"], V=gotypes.fill(r["V"], rnd, n)) for n, r in enumerate(rows[:G])]
-    for comp in ("iter", "unfolder"):
-        for a in range(len(progs)):
-            for b in range(len(progs)):
-                if ctx.quick and (a * 7 + b * 3) % 4 != 0:
-                    continue
-                hist = [progs[a]] if (a + b) % 3 else [progs[a], progs[(a + b) % len(progs)]]
-                cases.append(case("C17", "goreuse", "go", sub=dict(component=comp, history=hist, T=progs[b]["T"], V=progs[b]["V"]), origin="%s history" % comp))
+    # group the programs by the type of their rich field: within a group the same Go type is met as a plain value,
+    # inlined, omitted-when-empty, behind pointers ... so first use and cached use of a type differ in kind
+    def rich_type(T):
+        if T["k"] != "struct":
+            return json.dumps(T, sort_keys=True)
+        fs = [f for f in T["f"] if f["name"] not in ("P", "Q", "R")]
+        return json.dumps(fs[0]["t"], sort_keys=True) if fs else ""
+
+    def base_of(tj):
+        t = json.loads(tj) if tj else {}
+        while t.get("k") == "ptr":
+            t = t["e"][0]
+        return json.dumps(t, sort_keys=True)
+    groups = {}
+    for n, r in enumerate(rows):
+        g = base_of(rich_type(r["T"]))
+        tagsig = json.dumps([(f["opts"], f["t"]["k"]) for f in r["T"].get("f", [])])
+        groups.setdefault(g, {}).setdefault(tagsig, dict(T=r["T"], V=gotypes.fill(r["V"], rnd, n)))
+    npairs = 0
+    for g, variants in groups.items():
+        vs = list(variants.values())[: 5 if ctx.quick else 9]
+        for a in vs:
+            for b in vs:
+                for comp in ("iter", "unfolder"):
+                    cases.append(case("C17", "goreuse", "go", sub=dict(component=comp, history=[a], T=b["T"], V=b["V"]), origin="%s history (same base type)" % comp))
+                    npairs += 1
     number(cases)
     tf, st = core.run_harness(ctx, cases)
     failed, nv = core.tlc_validate(ctx, "TraceCodec", tf)
